@@ -45,6 +45,18 @@ MEMSAFE_FLAGS = ["--unwinding-assertions", "--drop-unused-functions",
                  "--signed-overflow-check", "--undefined-shift-check"]
 
 print_lock = threading.Lock()
+LIVE = set()		# pids (= process group ids) of running cbmc children
+
+
+def _kill_children(signum=None, frame=None):
+    for pid in list(LIVE):
+        try:
+            os.killpg(pid, signal.SIGKILL)
+        except OSError:
+            pass
+    if signum is not None:
+        sys.stderr.write("run.py: terminated by signal %d, children killed\n" % signum)
+        os._exit(2)
 
 
 def log(*a):
@@ -295,6 +307,7 @@ def solve_attempt(q, backend, cap, memgb):
                              preexec_fn=limit_mem(memgb))
     with q.lock:
         q.procs.append(p)
+    LIVE.add(p.pid)
     status = None
     while True:
         try:
@@ -319,6 +332,7 @@ def solve_attempt(q, backend, cap, memgb):
                 ru = None
             break
         time.sleep(0.1)
+    LIVE.discard(p.pid)
     dt = time.time() - t0
     try:
         o = open(outp, errors="replace").read()
@@ -625,6 +639,8 @@ def main():
     ap.add_argument("--no-witness", action="store_true")
     ap.add_argument("--no-evidence", action="store_true")
     a = ap.parse_args()
+    signal.signal(signal.SIGTERM, _kill_children)
+    signal.signal(signal.SIGINT, _kill_children)
     if a.replay:
         return do_replay(a.replay)
     if not a.prop:
